@@ -91,11 +91,12 @@ def run(ctx, cfgs, gen, nscripts, fields=default_fields, preds=(oracle_pred, fau
     rng = random.Random(ctx.seed * 7919 + hash(label) % 1000)
     reported = 0
     seen = set()
+    known_seen = set()
     for cfg in cfgs:
         if cfg.name() not in bins:
             continue
         b = bins[cfg.name()]
-        fails_here = 0
+        fails_here = 0; shrunk_here = 0; known_here = 0
         for k in range(nscripts):
             lines = gen(rng, cfg, k)
             h = C.sha(cfg.name(), '\n'.join(lines))
@@ -115,11 +116,28 @@ def run(ctx, cfgs, gen, nscripts, fields=default_fields, preds=(oracle_pred, fau
                 ctx.sample({'config': cfg.name(), 'script': lines[:12]})
             if f is not None:
                 fails_here += 1
-                if reported < max_report and fails_here <= 1:
+                # classify first (cheap): failures matching a known finding are counted, and only the first of each is shrunk and
+                # listed; every other failure is shrunk and reported (up to max_report), so that a different violation of the same
+                # property is never hidden behind a known one
+                sig0 = signature(f) if signature else {}
+                if sig0.get('finding'):
+                    ctx.hist('known_finding_hits', sig0['finding'])
+                    if sig0['finding'] not in known_seen:
+                        known_seen.add(sig0['finding'])
+                        g = shrink(cfg, b, f, fields, preds, need_model)
+                        sig = signature(g) if signature else {}
+                        if not sig.get('finding'):
+                            sig = sig0; g = f
+                        ctx.violation(f'{label}: {g.kind} on {cfg.name()}: {g.msg[:200]}', replay_text(g), found_input=True, signature=sig)
+                elif reported < max_report and shrunk_here < 4:
                     g = shrink(cfg, b, f, fields, preds, need_model)
                     sig = signature(g) if signature else {}
                     ctx.violation(f'{label}: {g.kind} on {cfg.name()}: {g.msg[:200]}', replay_text(g), found_input=True, signature=sig)
-                    reported += 1
+                    if not sig.get('finding'):
+                        reported += 1
+                    shrunk_here += 1
+                else:
+                    ctx.count('unreported_failures')
         ctx.hist('failing_scripts_per_config', cfg.name(), fails_here)
     return reported
 
@@ -134,7 +152,11 @@ def replay_file(path, fields=default_fields, preds=(oracle_pred, fault_pred), ne
         print('\n'.join(lines[:40]))
         return 1
     kvs = dict(t.split('=') for t in cfgl[0].split()[1:])
-    cfg = V.VecCfg(kvs['fl'], int(kvs['n']), kvs['st'], kvs['cat'], alloc=0 if kvs.get('realloc', '1') == '1' else 1, pool=int(kvs.get('pool', 3)))
+    partner = None
+    if 'fl2' in kvs:
+        partner = (kvs['fl2'], int(kvs['n2']), kvs['st2'], 0 if kvs.get('realloc2', '1') == '1' else 1)
+    cfg = V.VecCfg(kvs['fl'], int(kvs['n']), kvs['st'], kvs['cat'], alloc=0 if kvs.get('realloc', '1') == '1' else 1,
+                   pool=int(kvs.get('pool', 3)), partner=partner, pool2=int(kvs.get('pool2', 1)))
     script = [l for l in body if not l.startswith('cfg ')]
     C.translate(); C.lake_build(['amcdriver'])
     bins, errs = V.build([cfg])
